@@ -26,7 +26,10 @@ CONSTANTS Num10,   \* literal -> integer it denotes as a base-10 integer (domain
           NumC,    \* literal -> integer when it stands as a constant in a relation (0x.. is hex)
           DecStr,  \* ToString(integer) -> canonical decimal text
           HexStr,  \* ToString(integer) -> canonical hex text (0x..)
-          StrRank  \* string -> rank in lexicographic order
+          StrRank, \* string -> rank in lexicographic order
+          NumF,    \* literal -> rank of the finite float it denotes (order-preserving integer)
+          NormF,   \* literal -> normalised float text ("5" -> "5.0")
+          FCanon   \* ToString(rank) -> normalised float text
 
 NoVal == "<none>"
 MinI(a, b) == IF a < b THEN a ELSE b
@@ -122,10 +125,15 @@ Index(D) ==
 (* mode and selection.  Looking up an option that has not been evaluated   *)
 (* yet is an error (the order is wrong), never a silent default.           *)
 
-IsNum(type, s) == IF type = "hex" THEN s \in DOMAIN Num16 ELSE s \in DOMAIN Num10
-NumOf(type, s) == IF type = "hex" THEN Num16[s] ELSE Num10[s]
-NumOr0(type, s) == IF IsNum(type, s) THEN NumOf(type, s) ELSE 0
-Canon(type, n) == IF type = "hex" THEN HexStr[ToString(n)] ELSE DecStr[ToString(n)]
+IsNum(type, s) == IF type = "hex" THEN s \in DOMAIN Num16
+                  ELSE IF type = "float" THEN s \in DOMAIN NumF ELSE s \in DOMAIN Num10
+NumOf(type, s) == IF type = "hex" THEN Num16[s] ELSE IF type = "float" THEN NumF[s] ELSE Num10[s]
+Zero(type) == IF type = "float" THEN NumF["0.0"] ELSE 0
+NumOr0(type, s) == IF IsNum(type, s) THEN NumOf(type, s) ELSE Zero(type)
+Canon(type, n) == IF type = "hex" THEN HexStr[ToString(n)]
+                  ELSE IF type = "float" THEN FCanon[ToString(n)] ELSE DecStr[ToString(n)]
+\* float values are carried in normalised form
+Norm(type, s) == IF type = "float" /\ s \in DOMAIN NormF THEN NormF[s] ELSE s
 
 DefinedX(X, n) == n \in DOMAIN X.s
 TypeX(X, n) == IF DefinedX(X, n) THEN X.s[n].type ELSE "unknown"
@@ -227,7 +235,7 @@ Core(X, A, U, n) ==
                   ELSE IF di # 0 THEN "default" ELSE "none",
           asg |-> IF vis # 2 THEN "" ELSE IF sel THEN "y" ELSE "ny"]
   ELSE
-    LET num   == type \in {"int", "hex"}
+    LET num   == type \in {"int", "hex", "float"}
         rs    == S.ranges
         ri    == FirstTrue(X, A, rs)
         lo    == IF ri = 0 THEN 0 ELSE NumOr0(type, AtomStr(X, A, rs[ri].lo))
@@ -235,7 +243,7 @@ Core(X, A, U, n) ==
         sets  == RevOn(X, A, S.sets)
         forced == sets # <<>>
         wsets == IF DirectDep(X, A, n) = 2 THEN RevOn(X, A, S.wsets) ELSE <<>>
-        lit(r) == IF num THEN r.e.v[2] ELSE AtomStr(X, A, r.e.v)
+        lit(r) == IF num THEN Norm(type, r.e.v[2]) ELSE AtomStr(X, A, r.e.v)
         userOk == vis = 2 /\ u # NoVal
                   /\ (num => (IsNum(type, u) /\ (ri = 0 \/ (lo <= NumOf(type, u) /\ NumOf(type, u) <= hi))))
         ds    == S.defaults
@@ -243,7 +251,7 @@ Core(X, A, U, n) ==
         raw   == IF forced THEN [v |-> lit(sets[1]), s |-> "set"]
                  ELSE IF userOk THEN [v |-> u, s |-> "user"]
                  ELSE IF wsets # <<>> THEN [v |-> lit(wsets[1]), s |-> "wset"]
-                 ELSE IF di # 0 THEN [v |-> AtomStr(X, A, ds[di].v), s |-> "default"]
+                 ELSE IF di # 0 THEN [v |-> Norm(type, AtomStr(X, A, ds[di].v)), s |-> "default"]
                  ELSE [v |-> "", s |-> "none"]
         nval  == NumOr0(type, raw.v)
         val   == IF num /\ ri # 0 /\ nval < lo THEN Canon(type, lo)
